@@ -599,7 +599,7 @@ def run_all(jobs, modname=__name__):
     recs = [None] * len(jobs)
     for idx, limit in ((small, 20.0), (big, 240.0)):
         if idx:
-            for k, r in zip(idx, pool.run_jobs(modname, [jobs[k] for k in idx], limit=limit, reuse=True, abort=(limit < 100))):
+            for k, r in zip(idx, pool.run_jobs(modname, [jobs[k] for k in idx], limit=limit, reuse=True, abort=(limit < 100), strict_fp=True)):
                 recs[k] = r
     return recs
 
@@ -612,9 +612,14 @@ def validate_split(ctx, jobs, recs):
     verdicts = [None] * len(jobs)
     for k, v in zip(small, ctx.validate(TLA, CFG, [recs[k] for k in small])):
         verdicts[k] = v
-    if big:
-        for k, v in zip(big, ctx.validate(TLA, CFG, [recs[k] for k in big], tag="Trace_Distance_big", chunk=120)):
-            verdicts[k] = v
+    # (every TLC worker deserialises the batch for itself: 120 records of 240 nodes each are 60 MB of JSON
+    #  and more than the 8 GB heap once 16 workers hold them as TLA+ values)
+    mid = [k for k in big if recs[k].get("n", 0) <= 100]
+    huge = [k for k in big if recs[k].get("n", 0) > 100]
+    for part, tag, chunk in ((mid, "Trace_Distance_big", 120), (huge, "Trace_Distance_huge", 10)):
+        if part:
+            for k, v in zip(part, ctx.validate(TLA, CFG, [recs[k] for k in part], tag=tag, chunk=chunk)):
+                verdicts[k] = v
     return verdicts
 
 
